@@ -3,6 +3,7 @@
 mod dfs;
 mod exec;
 mod gen;
+mod genx;
 mod handles;
 mod locks;
 mod monitor;
